@@ -130,10 +130,16 @@ pub trait Num:
     + Hypot + Round + Clamp + ClampAssign + MulAdd + MulSub + Signum + IsValidDivisor + PartialCmp + PartialEq
     + core::ops::AddAssign + core::ops::SubAssign + core::ops::MulAssign + core::ops::DivAssign
     + HalfRotation + FullRotation + RealAngle + SignedAngle + UnsignedAngle + AngleEq
-    + HasBoolMask + FromScalar
+    + HasBoolMask + FromScalar + ToScalar
     + palette::stimulus::Stimulus
 {
 }
+/// the scalar type's value of a component (identity for the scalar instantiations; the same term for the vector one)
+pub trait ToScalar: FromScalar { fn to_scalar(self) -> Self::Scalar; }
+impl ToScalar for SymS { fn to_scalar(self) -> SymS { self } }
+impl ToScalar for SymV { fn to_scalar(self) -> SymS { SymS(self.0) } }
+impl ToScalar for f64 { fn to_scalar(self) -> f64 { self } }
+impl ToScalar for f32 { fn to_scalar(self) -> f32 { self } }
 impl Num for SymS {}
 impl Num for SymV {}
 impl Num for f64 {}
